@@ -280,6 +280,76 @@ static void traced_case(uint64_t n, int fam, unsigned rep) {
   case_end(n >= 2 && big);
 }
 
+// feedback-directed stress: mutate input lanes to maximise the largest intermediate lane reported through H2;
+// every evaluation is a fully shadow-checked forward + inverse transform
+static void climb_case(uint64_t n, unsigned rep, int iters) {
+  if (!case_begin("q120_ntt/intt_bb_avx2+H2|hill-climb", "n=%" PRIu64 " rep=%u iters=%d", n, rep, iters)) return;
+  rng_t* r = crng();
+  const unsigned lg = ilog2(n);
+  uint64_t* x = malloc(n * 32);
+  uint64_t* best = malloc(n * 32);
+  uint64_t* work = malloc(n * 32);
+  q120_gen_b(r, rep & 1 ? QF_ALLMAX : QF_NONCANON, n, best);
+  double best_bits = 0;
+  uint64_t events = 0;
+  for (int it = 0; it < iters; it++) {
+    memcpy(x, best, n * 32);
+    if (it) {
+      int nm = 1 + (int)(rng_u64(r) % 4);
+      for (int q = 0; q < nm; q++) {
+        uint64_t i = rng_u64(r) % (4 * n);
+        switch (rng_u64(r) % 5) {
+          case 0: x[i] = ~0ull; break;
+          case 1: x[i] = 0; break;
+          case 2: x[i] = rng_u64(r); break;
+          case 3: x[i] ^= 1ull << (rng_u64(r) % 64); break;
+          default: x[i] = ~0ull - (rng_u64(r) % Q120[i & 3]); break;
+        }
+      }
+    }
+    memcpy(work, x, n * 32);
+    memset(&M, 0, sizeof M);
+    M.shadow = malloc(n * 32 + 32);
+    M.active = 1;
+    spqlios_verif_ntt_trace = trace_cb;
+    q120_ntt_bb_avx2(T_NTT[lg], (q120b*)work);
+    double bf = M.max_bits_seen;
+    events += M.stage_events;
+    int repd = M.reported;
+    uint64_t* sh = M.shadow;
+    memset(&M, 0, sizeof M);
+    M.shadow = sh;
+    M.reported = repd;
+    M.active = 1;
+    q120_intt_bb_avx2(T_INTT[lg], (q120b*)work);
+    spqlios_verif_ntt_trace = 0;
+    M.active = 0;
+    events += M.stage_events;
+    double b = bf > M.max_bits_seen ? bf : M.max_bits_seen;
+    free(sh);
+    for (uint64_t i = 0; i < 4 * n; i++)
+      if (work[i] % Q120[i & 3] != x[i] % Q120[i & 3]) {
+        viol("oracle", "hill-climb input: round trip not congruent at lane %" PRIu64 " (n=%" PRIu64 ")", i / 4, n);
+        it = iters;
+        break;
+      }
+    if (b >= best_bits) {
+      best_bits = b;
+      memcpy(best, x, n * 32);
+    }
+  }
+  gauge_max("max_observed_bits", best_bits);
+  gauge_max("hill_climb_max_bits", best_bits);
+  cnt("h2_stage_events", events);
+  cnt("h2_traced_transforms", 2 * (uint64_t)iters);
+  cnt("hill_climb_evaluations", (uint64_t)iters);
+  sample("best observed intermediate lane 2^%.4f after %d evaluations", best_bits, iters);
+  free(x);
+  free(best);
+  free(work);
+  case_end(n >= 2);
+}
+
 static const uint64_t ELLS4[] = {0, 1, 2, 3, 5, 7, 9, 31, 101, 4095, 4097, 8191, 9999, 10000};
 
 void run_C04(void) {
@@ -323,6 +393,8 @@ void run_C04(void) {
     for (size_t f = 0; f < ARRAY_LEN(FAMS); f++)
       for (unsigned rep = 0; rep < reps; rep++) traced_case(n, FAMS[f], rep);
   }
+  for (unsigned k = 1; k <= (th ? 12u : 8u); k++)
+    for (unsigned rep = 0; rep < (th ? 8u : 2u); rep++) climb_case(1ull << k, rep, th ? 400 : 60);
   for (int k = 0; k <= 16; k++) {
     q120_del_ntt_bb_precomp(T_NTT[k]);
     q120_del_intt_bb_precomp(T_INTT[k]);
